@@ -14,6 +14,7 @@ FORMAT_RULES = "LT01,LT02,LT03,LT04,LT05,LT06,LT07,LT08,LT09,LT10,LT11,LT12,LT13
 
 def run(ctx, coq_ok):
     js = fixjobs.jobs(ctx, [FORMAT_RULES, "layout", "all", "core", "convention", "structure", "CV11,CP01", "ambiguous,aliasing,references"], ("second",))
+    js += fixjobs.boundary_jobs(ctx, ["all", "core"] if ctx.tier == "quick" else ["all", "core", FORMAT_RULES + ",AL01,AL02,CV01,CP03"], ("second",))
     nchanged = 0
     for (d, tpl, style, label, src, rules, extra, want), st, res in corpus.pmap("harness.fixcheck", "fix_case", js):
         if st != "ok":
